@@ -189,18 +189,30 @@ def judge(case, acc, ctx):
              sample_key=f"{template}/{'+'.join(subset)}/{ver}")
     try:
         data = B.read_configurations(cores, None)
-        if ver == "file":
+        if ver in VERSION_FILES:
             with open(art + "VERSION", "w") as fh:
-                fh.write("VERSION_MAJOR = 2\nVERSION_MINOR = 0\nPATCHLEVEL = 255\nVERSION_TWEAK = 7\nEXTRAVERSION = \n")
+                fh.write(VERSION_FILES[ver][0])
             data.update(B.read_version_file(art + "VERSION"))
         elif ver == "override":
             pre = "APP_ROOT" if template == "root" else "NORDIC_TOP"
             data.update({f"{pre}_SEQ_NUM": "77", f"{pre}_VERSION": "1.2.3-beta.4"})
-        data["artifacts_folder"] = art
         tpl = "root_with_nordic_top_envelope.yaml.jinja2" if template == "root" else "nordic_top_envelope.yaml.jinja2"
-        rendered = B.render_template(boot.ncs_path(tpl), data)
-        desc = yaml.safe_load(rendered)
-        envb = sut.create_mem(desc)
+        if case.get("cwd_artifacts"):
+            # library use from inside the artifacts directory: no artifacts_folder is passed, the children are found relative to the
+            # working directory
+            old_cwd = os.getcwd()
+            os.chdir(art)
+            try:
+                rendered = B.render_template(boot.ncs_path(tpl), data)
+                desc = yaml.safe_load(rendered)
+                envb = sut.create_mem(desc)
+            finally:
+                os.chdir(old_cwd)
+        else:
+            data["artifacts_folder"] = art
+            rendered = B.render_template(boot.ncs_path(tpl), data)
+            desc = yaml.safe_load(rendered)
+            envb = sut.create_mem(desc)
     except boot.HarnessError:
         raise
     except Exception as e:
@@ -217,14 +229,33 @@ def judge(case, acc, ctx):
         problems.append(f"the envelope's own component id does not carry the class id of {own_names}")
     if facts["fetched"] < 2 * len(subset):
         problems.append(f"only {facts['fetched']} '#name' fetches for {len(subset)} images (install + candidate-verification expected)")
-    exp = {"none": (1, None), "file": ((2 << 24) + (255 << 8) + 7, [2, 0, 255]), "override": (77, [1, 2, 3, -2, 4])}[ver]
+    exp = {"none": (1, None), "override": (77, [1, 2, 3, -2, 4]), **{k: v[1] for k, v in VERSION_FILES.items()}}[ver]
     if (facts["seq"], facts["version"]) != exp:
         problems.append(f"sequence number / version {facts['seq']}, {facts['version']} != configured {exp}")
     if problems:
         raise Violation("; ".join(problems[:3]), "consistent component indices, dependencies, integrated envelopes, digests and class ids", bucket=problems[0].split(":")[-1][:50])
 
 
+# VERSION files: every cell of {sequence number given / derived / absent} x {version given / derived / derived with pre-release / absent}
+VERSION_FILES = {
+    "file": ("VERSION_MAJOR = 2\nVERSION_MINOR = 0\nPATCHLEVEL = 255\nVERSION_TWEAK = 7\nEXTRAVERSION = \n", ((2 << 24) + (255 << 8) + 7, [2, 0, 255])),
+    "file-seq-only": ("APP_ROOT_SEQ_NUM = 9\nNORDIC_TOP_SEQ_NUM = 9\n", (9, None)),
+    "file-empty": ("", (1, None)),
+    "file-version-only": ("APP_ROOT_VERSION = 3.4.5-rc.1\nNORDIC_TOP_VERSION = 3.4.5-rc.1\n", (1, [3, 4, 5, -1, 1])),
+    "file-prerelease": ("VERSION_MAJOR = 1\nVERSION_MINOR = 2\nPATCHLEVEL = 3\nEXTRAVERSION = rc1\n", ((1 << 24) + (2 << 16) + (3 << 8), [1, 2, 3, -1, 1])),
+    "file-unsupported-extra": ("VERSION_MAJOR = 1\nVERSION_MINOR = 2\nPATCHLEVEL = 3\nVERSION_TWEAK = 0\nEXTRAVERSION = dev\n", ((1 << 24) + (2 << 16) + (3 << 8), [1, 2, 3, -3])),
+}
+EXTRA_CONFIGURATIONS = 18
+
+
 def configurations():
+    for ver in [v for v in VERSION_FILES if v != "file"]:
+        yield {"template": "root", "subset": ["application"], "custom": False, "ver": ver}
+        yield {"template": "root", "subset": ["radio", "application", "top"], "custom": True, "ver": ver}
+        yield {"template": "top", "subset": ["secdom", "sysctrl"], "custom": False, "ver": ver}
+    yield {"template": "root", "subset": ["radio", "application", "top"], "custom": True, "ver": "none", "cwd_artifacts": True}
+    yield {"template": "root", "subset": ["application"], "custom": False, "ver": "file", "cwd_artifacts": True}
+    yield {"template": "top", "subset": ["secdom", "sysctrl"], "custom": False, "ver": "override", "cwd_artifacts": True}
     for subset in itertools.chain.from_iterable(itertools.combinations(["radio", "application", "top"], r) for r in range(1, 4)):
         for custom in (False, True, "mixed", "markup"):
             for ver in ("none", "file", "override"):
@@ -283,7 +314,7 @@ def replay(ctx, check, case):
 
 def finalize(ctx, m, ev):
     c = m["counters"]
-    ev["coverage"]["exhaustive"] = m["info"].get("configurations") == 87
-    ev["coverage"]["exhaustive_scope"] = "configuration product (7 subsets x 4 name sets x 3 + top x 3 = 87) enumerated completely; child envelopes sampled"
-    if m["info"].get("configurations") != 87:
-        raise boot.HarnessError(f"{m['info'].get('configurations')} of 87 configurations covered")
+    ev["coverage"]["exhaustive"] = m["info"].get("configurations") == 87 + EXTRA_CONFIGURATIONS
+    ev["coverage"]["exhaustive_scope"] = "configuration product (7 subsets x 4 name sets x 3 + top x 3 = 87, plus 15 VERSION-file cells and 3 runs from inside the artifacts directory) enumerated completely; child envelopes sampled"
+    if m["info"].get("configurations") != 87 + EXTRA_CONFIGURATIONS:
+        raise boot.HarnessError(f"{m['info'].get('configurations')} of 105 configurations covered")
